@@ -741,6 +741,26 @@ fn banded_jacobian_storage() -> Option<String> {
     None
 }
 
+/// C06 (degenerate run): x0 == xend with dense output: Success, one sample, sol(x0) is the initial state for every method
+fn zero_length_dense() -> Option<String> {
+    struct F;
+    impl IVP for F { fn ode(&self, _t: f64, y: &[f64], d: &mut [f64]) { d[0] = y[1]; d[1] = -y[0]; } }
+    for m in [Method::RK4, Method::RK23, Method::DOPRI5, Method::DOP853, Method::RADAU, Method::BDF] {
+        for x0 in [0.0, 1.0, -3.5, 1e-13, 1e9] {
+            let y0 = [0.25, -2.0];
+            match solve_ivp(&F, x0, x0, &y0, Options::builder().method(m.clone()).dense_output(true).build()) {
+                Err(e) => return Some(format!("{:?}: x0 == xend == {}: Err {:?}", m, x0, e)),
+                Ok(s) => {
+                    if s.status != Status::Success || s.t != vec![x0] || s.y.len() != 1 || s.y[0] != y0.to_vec() { return Some(format!("{:?}: x0 == xend == {}: status {:?}, t = {:?}, y = {:?}", m, x0, s.status, s.t, s.y)); }
+                    match s.sol(x0) { Ok(v) => { if v != y0.to_vec() { return Some(format!("{:?}: x0 == xend == {}: sol(x0) = {:?}, the initial state is {:?}", m, x0, v, y0)); } }
+                        Err(e) => return Some(format!("{:?}: x0 == xend == {}: sol(x0) fails with {:?} (sol_span = {:?})", m, x0, e, s.sol_span())) }
+                }
+            }
+        }
+    }
+    None
+}
+
 fn main() {
     let which = std::env::args().nth(1).unwrap_or_default();
     let r = match which.as_str() {
@@ -751,6 +771,7 @@ fn main() {
         "default_mass" => default_mass(),
         "matrix_dense_model" => matrix_dense_model(),
         "lu_small" => lu_small(),
+        "zero_length_dense" => zero_length_dense(),
         "events_multi_in_step" => events_multi_in_step(),
         "banded_jacobian_storage" => banded_jacobian_storage(),
         "sol_at_every_sample" => sol_at_every_sample(),
